@@ -162,6 +162,7 @@ class Run:
         self.cur_channel = {}
         self._last_key = None
         self.shared_md = {}
+        self.shared_retry = {}
 
     # ------------------------------------------------------------------ helpers
     def request_desc(self, op):
@@ -218,12 +219,18 @@ class Run:
                 initial=r["initial"], maximum=r["maximum"], multiplier=r["multiplier"],
                 predicate=retries.if_exception_type(*[CODE_TO_EXC[c] for c in r["codes"]]),
                 timeout=r.get("timeout"))
+            if call.get("retry_shared"):
+                # legal caller behaviour: ONE Retry object is defined once and passed to many (also concurrent) calls
+                key = (call["retry_shared"], asyncio_flavour, json.dumps(r, sort_keys=True))
+                kwargs["retry"] = self.shared_retry.setdefault(key, kwargs["retry"])
         t = call.get("timeout", "default")
         if t != "default":
             kwargs["timeout"] = t
         if call.get("metadata"):
             kwargs["metadata"] = [tuple(kv) for kv in call["metadata"]]
-            if call.get("metadata_shared"):
+            if call.get("metadata_form") == "tuple":
+                kwargs["metadata"] = tuple(kwargs["metadata"])
+            elif call.get("metadata_shared"):
                 # legal caller behaviour: the very same LIST object is passed to several calls
                 kwargs["metadata"] = self.shared_md.setdefault(call["metadata_shared"], kwargs["metadata"])
         return args, kwargs
